@@ -435,7 +435,7 @@ struct GitScratch {
 
 impl GitScratch {
     fn new() -> Option<Self> {
-        let dir = crate::scratch_dir().ok()?;
+        let dir = vcommon::scratch_dir();
         let repo = git2::Repository::init_bare(dir.path()).ok()?;
         Some(GitScratch { _dir: dir, repo })
     }
@@ -823,13 +823,7 @@ fn judge_init(rep: &mut Reporter, seed: u64, git_docs: usize) {
         }
         w
     };
-    let dir = match crate::scratch_dir() {
-        Ok(d) => d,
-        Err(e) => {
-            rep.inconclusive("tempdir", json!({"error": e.to_string()}));
-            return;
-        }
-    };
+    let dir = vcommon::scratch_dir();
     let storage = match open_storage(dir.path(), *dev.public_key()) {
         Ok(s) => s,
         Err(e) => {
